@@ -21,6 +21,20 @@ package k8s
 //@   ensures 0 <= result && result <= len(s) && (limit >= 0 ==> result <= limit) && (limit < 0 ==> result == 0)
 //@   loop 1 invariant 0 <= i && i <= len(s) && (limit >= 0 ==> i <= limit) && (limit < 0 ==> i == 0)
 
+// endsWithNewLine (C15): "the chunk ends with an escaped line feed" - the letter n in
+// front of the closing quote, preceded by an odd number of backslashes.  The loop
+// counts the run of backslashes; the postconditions pin the cases 0, 1 and 2 and
+// the general shape (a run of k backslashes bounded by a non-backslash decides by parity).
+
+//@ func endsWithNewLine
+//@   pure
+//@   ensures result ==> len(s) >= 3 && s[len(s) - 2] == 'n' && s[len(s) - 3] == '\\'
+//@   ensures len(s) >= 4 && s[len(s) - 2] == 'n' && s[len(s) - 3] == '\\' && s[len(s) - 4] != '\\' ==> result
+//@   ensures len(s) >= 5 && s[len(s) - 3] == '\\' && s[len(s) - 4] == '\\' && s[len(s) - 5] != '\\' ==> !result
+//@   ensures len(s) >= 6 && s[len(s) - 2] == 'n' && s[len(s) - 3] == '\\' && s[len(s) - 4] == '\\' && s[len(s) - 5] == '\\' && s[len(s) - 6] != '\\' ==> result
+//@   loop 1 invariant -1 <= i && i <= len(s) - 3 && n == len(s) - 3 - i && len(s) >= 3 && s[len(s) - 2] == 'n'
+//@   loop 1 invariant forall j :: i < j && j <= len(s) - 3 ==> s[j] == '\\'
+
 //@ func (*MultilineAction).resetLogBuf
 //@   requires len(p.eventBuf) >= 1
 //@   modifies p.eventBuf, p.eventSize, p.cutOffEvent
@@ -35,6 +49,9 @@ package k8s
 //@   loop 2 invariant len(p.eventBuf) >= 1 && (p.maxEventSize == 0 || (p.maxEventSize >= 3 && len(p.eventBuf) <= p.maxEventSize - 2)) && event != nil
 //@   ensures len(p.eventBuf) >= 1
 //@   ensures p.maxEventSize == 0 || len(p.eventBuf) <= p.maxEventSize - 2
+//@   assert at "if !isEnd && !shouldSplit" isEnd ==> logFragmentLen >= 3 && logFragment[logFragmentLen - 2] == 'n' && logFragment[logFragmentLen - 3] == '\\'
+//@   assert at "if !isEnd && !shouldSplit" logFragmentLen >= 5 && logFragment[logFragmentLen - 3] == '\\' && logFragment[logFragmentLen - 4] == '\\' && logFragment[logFragmentLen - 5] != '\\' ==> !isEnd
+//@   assert at "if !isEnd && !shouldSplit" logFragmentLen >= 4 && logFragment[logFragmentLen - 2] == 'n' && logFragment[logFragmentLen - 3] == '\\' && logFragment[logFragmentLen - 4] != '\\' ==> isEnd
 //@   callee IsTimeoutKind() (r)
 //@     pure
 //@   callee AddFieldNoAlloc(r, n)
